@@ -136,6 +136,14 @@ def run_shard(binpath, unit, tiercfg, pid, uname, k, seed, statsdir, tier, repla
         src = os.path.join(VERIF, "corpus", pid, unit["fuzz"])
         if os.path.isdir(src):
             shutil.copytree(src, os.path.join(rundir, "testdata", "fuzz", unit["fuzz"]))
+    # committed replay files of earlier findings (regress/<property>/<Test>/*.fail): rapid runs what it finds under
+    # testdata/rapid/<Test>/ before it generates anything. One shard does that. A file recorded against an older
+    # generator may decode to a different, passing case - then it costs a millisecond and says nothing.
+    if unit.get("engine", "rapid") == "rapid" and k == 0 and not replay:
+        tname = unit["run"].strip("^$")
+        src = os.path.join(VERIF, "regress", pid, tname)
+        if os.path.isdir(src):
+            shutil.copytree(src, os.path.join(rundir, "testdata", "rapid", tname))
     timeout = tiercfg.get("timeout", 900)
     args = [binpath, "-test.timeout", "%ds" % (timeout + 120)]
     if unit.get("engine") == "fuzz" and not replay:
